@@ -26,7 +26,7 @@ THEOREMS = [f'Gnpy.Verdict.{t}' for t in (
     'penalty_below_blocks', 'penalty_above_blocks', 'penalty_inside_finite', 'penalty_segment', 'totalPenalty_inf',
     'penalty_outside_blocks', 'minMetric_spec', 'penalty_normalised',
     'passFixed_iff', 'passAuto_iff', 'verdict_iff', 'verdict_margin', 'fixedReason_spec',
-    'selectMode_spec', 'none_feasible_reason', 'autoReason_spec',
+    'selectMode_spec', 'none_feasible_reason', 'autoReason_spec', 'request_verdict_iff', 'selectMode_served_feasible',
     'selectMode_fails_old', 'selectModeOld_accepts_infeasible')] + [
     'Gnpy.HE.rintR_mono', 'Gnpy.HE.abs_rintR_sub_le', 'Gnpy.HE.round2_mono', 'Gnpy.HE.abs_round2_sub_le',
     'Gnpy.HE.round2_grid', 'Gnpy.Verdict.modeOrder_sorted', 'Gnpy.Verdict.mem_modeOrder']
@@ -162,6 +162,8 @@ def gen_path(rng, tier, widen=False):
             'margin': rng.choice([0, 1, 2, 2, 2.5, 3]), 'modes': modes,
             'roadm': {'add_drop_osnr': rng.choice([30, 33, 38, 38, 45, 100]), 'pdl': rng.choice([0, 0.3, 0.5, 1.0]),
                       'pmd': rng.choice([0, 0, 3e-12])},
+            'roadm_nodes': [rng.choice([None, None, None, {'add_drop_osnr': rng.choice([28, 33, 36, 42])}, 'detailed'])
+                            for _ in range(k)],
             'mode': None if auto else modes[0]['format'], 'bidir': rng.random() < 0.4,
             'power': rng.choice([None, None, 1e-3, 2e-3, 5e-4]), 'malformed': None}
     # thresholds: calibrated on each mode's own metric (absolute numbers are stored in the case)
@@ -236,10 +238,15 @@ def _build(case, equalise_offsets=False):
             'mode': [_mode_json(m) for m in modes]}]
     doc = nets_g.library_doc(trx, margin=case['margin'], roadm=case['roadm'])
     eq = nets_g.build_equipment(doc)
-    net = nets_g.build_network(nets_g.line_topo(case['fwd'], case['rev']), eq)
+    topo = nets_g.line_topo(case['fwd'], case['rev'],
+                            roadm_params={i: v for i, v in enumerate(case.get('roadm_nodes') or []) if isinstance(v, dict)})
+    for i, v in enumerate(case.get('roadm_nodes') or []):
+        if v == 'detailed':
+            next(e for e in topo['elements'] if e['uid'] == f'roadm N{i}')['type_variety'] = 'detailed_impairments'
+    net = nets_g.build_network(topo, eq)
     from gnpy.topology.spectrum_assignment import build_oms_list
     build_oms_list(net, eq)
-    return {'eq': eq, 'net': net, 'modes': modes}
+    return {'eq': eq, 'net': net, 'modes': modes, 'doc': doc}
 
 
 def _req_doc(case, mode):
@@ -295,15 +302,28 @@ def _indep_eval(prop, adddrop_db, tx_osnr, tables):
     return {'min': min(met), 'snr01': snr01, 'pen': pen}
 
 
-def _adddrop(case, path):
-    """the add and the drop contribution of the route: each crossed add/drop stage counts add_drop_osnr + 10log10(2)
-    (the library gives the OSNR of add and drop together), express crossings none"""
+def _adddrop(case, path, doc=None):
+    """the add and the drop contribution of the route, each once: a ROADM of the default kind states the OSNR of add and drop
+    together (`add_drop_osnr`, own value or the library's), so each stage counts add_drop_osnr + 10log10(2); a ROADM with
+    detailed impairments states `roadm-osnr` of its add path and of its drop path; express crossings contribute nothing"""
     from gnpy.core.elements import Roadm
     roadms = [e for e in path if isinstance(e, Roadm)]
     if not roadms:
         return []
-    v = case['roadm']['add_drop_osnr'] + 10 * math.log10(2)
-    return [v] if len(roadms) == 1 else [v, v]
+    nodes = case.get('roadm_nodes') or []
+
+    def stage(r, kind):
+        i = int(r.uid.split('N')[-1])
+        v = nodes[i] if i < len(nodes) else None
+        if v == 'detailed':
+            lib = next(x for x in (doc or nets.eqpt_json())['Roadm'] if x.get('type_variety') == 'detailed_impairments')
+            imp = next(x[f'roadm-{kind}-path'] for x in lib['roadm-path-impairments'] if f'roadm-{kind}-path' in x)
+            return imp[0]['roadm-osnr']
+        ad = v['add_drop_osnr'] if isinstance(v, dict) else case['roadm']['add_drop_osnr']
+        return ad + 10 * math.log10(2)
+    if len(roadms) == 1:
+        return [stage(roadms[0], 'add')]
+    return [stage(roadms[0], 'add'), stage(roadms[-1], 'drop')]
 
 
 def _own_figures(ctx, case, path0, m):
